@@ -349,6 +349,15 @@ def cases(rng, tier):
         out.append(dict(kind="vc", strs=[rand_code(rng) for _ in range(10)]))
     for _ in range(150 * k):
         out.append(dict(kind="gc", pfx=rand_prefix(rng), num_words=rng.choice([1, 2, 2, 2, 3, 4, 5])))
+        if rng.random() < 0.3:
+            # a session: the same partial word typed at successive word positions, one wordlist object
+            w = rng.choice(["", "s", "a", "ar", "b", "st", "c", "te"])
+            first = rng.choice(["caravan", "armistice", "snowslide", "tiger"])
+            second = rng.choice(["adroitness", "unicorn", "sardonic", "letterhead"])
+            nw = rng.choice([2, 3, 3, 4])
+            qs = [[w, nw], [first + "-" + w, nw], [first + "-" + second + "-" + w, nw], [w, nw]]
+            rng.shuffle(qs)
+            out.append(dict(kind="gcseq", queries=qs))
     for _ in range(120 * k):
         out.append(dict(kind="api", ops=legal_api(rng)))
     for _ in range(60 * k):
@@ -422,6 +431,15 @@ def run_case(case):
         n, data = case["n"], case["data"]
         words, fd = with_urandom(data, lambda: PGPWordList().choose_words(n))
         return Result([f"cw {n} {hx(bytes(data))}"], [hs(words)], words_violations(n, data, fd, words), ["cw:%d" % min(n, 5)])
+    if k == "gcseq":
+        wl = PGPWordList()      # one instance for the whole interactive session, as Input holds it
+        lines, exp, viol = [], [], []
+        for p, nw in case["queries"]:
+            got = wl.get_completions(p, nw)
+            lines.append(f"gc {nw} {hs(p)}")
+            exp.append(hl(got))
+            viol += completion_violations(p, nw, got)
+        return Result(lines, exp, viol, ["gcseq:%d" % len(case["queries"])])
     if k == "gc":
         p, nw = case["pfx"], case["num_words"]
         got = PGPWordList().get_completions(p, nw)
